@@ -18,7 +18,7 @@ def U1():
     u["a_k1_t10_ea"] = make_event("A", 1, 10, [["e", "a"]], "1")
     u["a_k1_t20_eab"] = make_event("A", 1, 20, [["e", "ab"]], "2")
     u["b_k1_t20_eb"] = make_event("B", 1, 20, [["e", "b"], ["p", PK["A"]]], "3")
-    u["a_k2_t30_dup"] = make_event("A", 2, 30, [["e", "a"], ["e", "a"], ["t", "it's"]], "4")
+    u["a_k2_t30_dup"] = make_event("A", 2, 30, [["e", "a"], ["e", "a"], ["e", "ab"], ["t", "it's"]], "4")
     u["b_k256_t30_dlg"] = make_event("B", 256, 30, [delegation_tag("A", "B", "kind=256"), ["t", "é"]], "5")
     u["a_k1_t20_idff"] = grind("A", 1, 20, [], lambda i: i.startswith("ff"), "ff")
     u["a_k255_T_nul"] = make_event("A", 255, T9, [["t", "a\x00b"], ["d", ""]], "6")
@@ -28,12 +28,71 @@ def U1():
     return u
 
 
+@functools.lru_cache(None)
+def U2():
+    """byte-order neighbours: tag values that extend a requested value through a NUL (they sort *between* the entries of the
+    shorter value), several requested values on one event, equal timestamps"""
+    u = {}
+    u["n_ta_t10"] = make_event("A", 1, 10, [["t", "a"]], "n1")
+    u["n_ta_ea_eab_t20"] = make_event("B", 1, 20, [["t", "a"], ["e", "a"], ["e", "ab"]], "n2")
+    u["n_taNULz_t5"] = make_event("A", 1, 5, [["t", "a\x00z"]], "n3")
+    u["n_tab_t30"] = make_event("A", 1, 30, [["t", "ab"]], "n4")
+    u["n_eab_pA_t20"] = make_event("C", 2, 20, [["e", "ab"], ["p", PK["A"]]], "n5")
+    u["n_taNUL_t20"] = make_event("A", 1, 20, [["t", "a\x00"]], "n6")
+    u["n_ta_T"] = make_event("B", 1, T9, [["t", "a"], ["p", PK["A"]]], "n7")
+    return u
+
+
+UNIVERSES = {"U1": U1, "U2": U2}
 QUICK_N = 6  # quick tier: subsets of the first 6 members
 
 
 def members(tier, uname="U1"):
-    names = list(U1())
+    names = list(UNIVERSES[uname]())
+    if uname == "U2":
+        return names[:6] if tier == "quick" else names
     return names[:QUICK_N] if tier == "quick" else names
+
+
+def field_options_U2():
+    A, B, C = PK["A"], PK["B"], PK["C"]
+    return {
+        "authors": [[A], [B], [A, B]],
+        "kinds": [[1], [2], [1, 2]],
+        "#t": [["a"], ["ab"], ["a", "ab"], ["a\x00z"], ["a\x00"], ["a", "a\x00z"]],
+        "#e": [["a"], ["ab"], ["a", "ab"], ["zz"]],
+        "#p": [[A]],
+    }
+
+
+def W_single_U2(tier):
+    fo = field_options_U2()
+    keys = list(fo)
+    wins = [{}, {"since": 4}, {"since": 7}, {"since": 10}, {"since": 15}, {"since": 21}, {"until": 7}, {"until": 15}, {"until": 25}, {"since": 7, "until": 25},
+            {"since": 15, "until": T9 + 5}]
+    out = [dict(w) for w in wins if w]
+    for k in keys:
+        for v in fo[k]:
+            for w in wins:
+                f = {k: v}
+                f.update(w)
+                out.append(f)
+    for k1, k2 in itertools.combinations(keys, 2):
+        for v1 in fo[k1]:
+            for v2 in fo[k2]:
+                for w in (wins if tier == "thorough" else wins[:4]):
+                    f = {k1: v1, k2: v2}
+                    f.update(w)
+                    out.append(f)
+    for k1, k2, k3 in itertools.combinations(keys, 3):
+        for v1 in fo[k1][:3]:
+            for v2 in fo[k2][:3]:
+                for v3 in fo[k3][:2]:
+                    for w in wins[:2]:
+                        f = {k1: v1, k2: v2, k3: v3}
+                        f.update(w)
+                        out.append(f)
+    return out
 
 
 def subsets(names):
